@@ -940,7 +940,17 @@ class DocutilsRenderer(RendererProtocol):
             # markdown-it encodes unsafe characters with percent-encoding
             # we want to get back the original, source input
             uri = self.md.normalizeLinkText(uri)
-            _parsed = urlparse(uri)
+            try:
+                _parsed = urlparse(uri)
+            except ValueError as exc:
+                # e.g. "Invalid IPv6 URL" for `wiki://[x`: only {{uri}} is available to the templates
+                self.create_warning(
+                    f"Invalid link destination {uri!r}: {exc}",
+                    MystWarnings.XREF_MISSING,
+                    line=token_line(token, default=0),
+                    append_to=self.current_node,
+                )
+                _parsed = urlparse("")
             parsed = {
                 "uri": uri,
                 "scheme": _parsed.scheme,
